@@ -23,7 +23,7 @@ let rec int_of_nat = function O -> 0 | S n -> 1 + int_of_nat n
 let event_of_tok (t:string) : event =
   let num () = n_of_int (int_of_string (String.sub t 1 (String.length t - 1))) in
   match t with
-  | "DR" -> Dial Refused | "DS" | "DZ" -> Dial AcceptedSilent | "DB" -> Dial BadHandshake
+  | "DR" -> Dial Refused | "DS" | "DZ" | "DP" -> Dial AcceptedSilent | "DB" -> Dial BadHandshake
   | "DH" -> Dial HandshakeThenDropped | "DC" -> Dial ClosedNormally | "DE" -> Dial Established
   | "X" -> Drop | "T" -> Stop false | "t" -> Stop true
   | "Y" -> StopAtEntry false | "y" -> StopAtEntry true
@@ -172,6 +172,46 @@ let start_class up0 phases =
   let reps = List.filter (fun t -> String.length t > 0 && t.[0] = 'r') (List.map entry_s (log !s)) in
   Printf.printf "%s | up=%s\n" (String.concat " " reps) (b01 (isUp !s))
 
+(* ---- the device registry (Driver/Registry.v) *)
+let rec nat_of_int n = if n <= 0 then O else S (nat_of_int (n - 1))
+let rev_of_tok (t:string) : rev =
+  let num () = nat_of_int (int_of_string (String.sub t 1 (String.length t - 1))) in
+  match t.[0] with
+  | 'c' -> RCheck (num ()) | 'b' -> RCreate (num ()) | 'e' -> REnter (num ())
+  | 'R' -> RRemove | 'x' -> RExit (num ())
+  | _ -> failwith ("bad registry token " ^ t)
+let rflags_of = function
+  | "found" -> flags_found | "repaired" -> flags_repaired
+  | "outside" -> { create_under_lock = false; cleanup_own_only = true }
+  | v -> failwith ("bad variant " ^ v)
+(* run a schedule; returns the final state and the largest number of supervisors seen *)
+let reg_run fl (evs : rev list) =
+  let s = ref rinit and mx = ref 0 in
+  List.iter (fun e -> s := rstep fl !s e; mx := max !mx (int_of_nat (supervisors !s))) evs;
+  (!s, !mx)
+let range n = List.init n (fun k -> nat_of_int k)
+let race_schedules n =
+  let ids = range n in
+  [ List.map (fun c -> RCheck c) ids @ List.map (fun c -> REnter c) ids;
+    List.concat_map (fun c -> [RCheck c; REnter c]) ids;
+    List.map (fun c -> RCheck c) ids @ List.map (fun c -> REnter c) (List.rev ids);
+    (match ids with
+     | a :: rest -> [RCheck a] @ List.map (fun c -> RCheck c) rest @ [REnter a] @ List.concat_map (fun c -> [REnter c; RCheck c]) rest
+     | [] -> []) ]
+let race_class n =
+  let mx = ref 0 and opn = ref 0 in
+  List.iter (fun sch ->
+      let (_, m) = reg_run flags_repaired sch in
+      let (s', _) = reg_run flags_repaired (sch @ [RRemove]) in
+      mx := max !mx m; opn := max !opn (int_of_nat (supervisors s'))) (race_schedules n);
+  Printf.printf "maxlive=%d late=0 open=%d\n" !mx !opn
+let readd_class () =
+  let pre = [RCheck O; REnter O; RRemove] and again = [RCheck (S O); REnter (S O)] in
+  let (s1, _) = reg_run flags_repaired (pre @ again @ [RExit O]) in
+  let (s2, _) = reg_run flags_repaired (pre @ [RExit O] @ again) in
+  let show s = Printf.sprintf "managed=%s live=%d" (b01 (managed s)) (int_of_nat (supervisors s)) in
+  if show s1 = show s2 then print_endline (show s1) else print_endline ("!orders-differ " ^ show s1 ^ " / " ^ show s2)
+
 let () =
   try
     while true do
@@ -182,6 +222,12 @@ let () =
          gen (int_of_string seed) (int_of_string count) (int_of_string md) (int_of_string ml)
        | ["sys"; n] -> sys (int_of_string n)
        | ["start"; up0; phases] -> (try start_class (up0 = "1") phases with Failure m -> print_endline ("error: " ^ m))
+       | ["race"; n; _] -> race_class (int_of_string n)
+       | ["readd"; _; _] -> readd_class ()
+       | "reg" :: v :: toks ->
+         (try let (s, m) = reg_run (rflags_of v) (List.map rev_of_tok toks) in
+            Printf.printf "managed=%s live=%d maxlive=%d created=%d\n" (b01 (managed s)) (int_of_nat (supervisors s)) m (int_of_nat (next s))
+          with Failure m -> print_endline ("error: " ^ m))
        | ["consts"] -> Printf.printf "maxConnAttempts=%d maxSendAttempts=%d\n"
                          (int_of_nat max_conn_attempts) (int_of_nat max_send_attempts)
        | [] -> ()
